@@ -43,12 +43,12 @@ PROPS = {
     "C01": {
         "title": "Message round-trip fidelity across every API, role, buffer size and chunking",
         "level": "exploration",
-        "rule": "rapid-generated (writer cfg, reader cfg, write program over all write APIs incl. invalid requests and interleaved control, transport chunking, read program over all read APIs); executed writer->wire->reader of the opposite role; oracle = sent message list (types, bytes, order, count) + control payloads seen by handlers. Non-trivial = >=1 data message and (message larger than the write buffer, or split writes, or interleaved control, or compression negotiated+enabled, or chunked transport reads); distinct = distinct FNV-64 of the canonical JSON of the case.",
+        "rule": "rapid-generated (writer cfg, reader cfg, write program over all write APIs incl. invalid requests and interleaved control, transport chunking, read program over all read APIs); executed writer->wire->reader of the opposite role; oracle = sent message list (types, bytes, order, count) + control payloads seen by handlers. Non-trivial = >=1 data message and (message larger than the write buffer, or split writes, or interleaved control, or compression negotiated+enabled, or chunked transport reads); distinct = distinct FNV-64 of the canonical JSON of the case. part interleaved-readers: 2-3 connections of one process (the flate readers/writers come from process-wide pools) read their own conformant streams with their reads interleaved by a generated schedule (open next / read n bytes / read to end / abandon); every connection must deliver exactly its own messages.",
         "assumptions": TRUST + ["message sizes are sampled up to ~300 KB (boundary biased), not unbounded"],
         "level_text": "Bounded random exploration: tens of thousands of generated (configuration, write program, chunking, read program) cases per run, boundary-biased, judged against the list of messages the program sent. Exploration is the right level because the property quantifies over unbounded inputs and programs; nothing finite enumerates them.",
         "level_note": "Oracle is the harness's own record of what it asked the API to send; the reader under test is the library's, so symmetric writer/reader mistakes are left to C02/C03 (independent codec).",
         "technique": "property-based testing (rapid): generated write/read programs, round-trip oracle, shrinking",
-        "legs": [leg("^TestC01$", 5000, 160000, qshards=8), fuzzleg("FuzzC01", 60)],
+        "legs": [leg("^TestC01$", 5000, 160000, qshards=8), fuzzleg("FuzzC01", 60), leg("^TestC01Multi$", 1500, 30000, qshards=8)],
     },
     "C02": {
         "title": "Everything written to the wire is well-formed RFC 6455 / RFC 7692 framing",
@@ -63,18 +63,18 @@ PROPS = {
     "C03": {
         "title": "The reader decodes any conformant peer stream, however fragmented or read",
         "level": "exploration",
-        "rule": "streams are generated by the independent encoder wsref (1-6 messages, 0-8 fragments incl. empty ones, 7/16/64-bit lengths at the thresholds, per-frame mask keys incl. 00000000/ffffffff/payload-equal, ping/pong at any frame boundary, optional close; compressed messages produced by independent deflate producers: compress/flate at every level with sync flushes, hand-written stored blocks, hand-written fixed-Huffman blocks with matches, BFINAL form) and read by generated read programs (ReadMessage, NextReader+sized reads incl. 0 and >= bufio size, bufio/ReadAll wrappers, ReadJSON, JoinMessages, abandonment) under generated transport chunkings; oracle = the encoded message list (reference model) and the control frames in wire order. Non-trivial = a message with >=2 frames, or a control frame between fragments, or a compressed message, or an abandoned message, or a chunked transport. part mask-carry-sweep: exhaustive enumeration (113652 cells) of {reader role} x message length 0..40 x first-fragment length 0..N x application read size {1,2,3,4,5,7,8,9,16,17,64} x transport chunk {as-is,1,3} x {ping between the fragments or not}, every cell judged by the same oracle.",
+        "rule": "streams are generated by the independent encoder wsref (1-6 messages, 0-8 fragments incl. empty ones, 7/16/64-bit lengths at the thresholds, per-frame mask keys incl. 00000000/ffffffff/payload-equal, ping/pong at any frame boundary, optional close; compressed messages produced by independent deflate producers: compress/flate at every level with sync flushes, hand-written stored blocks, hand-written fixed-Huffman blocks with matches, BFINAL form) and read by generated read programs (ReadMessage, NextReader+sized reads incl. 0 and >= bufio size, bufio/ReadAll wrappers, ReadJSON, JoinMessages, abandonment) under generated transport chunkings; oracle = the encoded message list (reference model) and the control frames in wire order. Non-trivial = a message with >=2 frames, or a control frame between fragments, or a compressed message, or an abandoned message, or a chunked transport. part mask-carry-sweep: exhaustive enumeration (113652 cells) of {reader role} x message length 0..40 x first-fragment length 0..N x application read size {1,2,3,4,5,7,8,9,16,17,64} x transport chunk {as-is,1,3} x {ping between the fragments or not}, every cell judged by the same oracle. part interleaved-readers: as in C01 - several connections reading compressed and uncompressed streams with interleaved reads; each must decode its own stream.",
         "assumptions": TRUST + ["mask keys and deflaters are sampled (special keys and four producer families), not all 2^32 keys"],
         "level_text": "Bounded random exploration of conformant streams x read programs x chunkings against a reference model of what the stream encodes; the encoder and the deflate producers are independent of the library.",
         "level_note": "Reference encoder/deflaters in harness/wsref, self-tested on RFC byte vectors; ReadJSON is judged differentially against encoding/json on the true payload.",
         "technique": "property-based testing (rapid): independent encoder as generator, reference-model oracle, shrinking",
-        "legs": [leg("^TestC03$", 4000, 120000, qshards=8), leg("^TestC03Sweep$", 1, 1, qshards=8, tshards=16), fuzzleg("FuzzC03", 60)],
+        "legs": [leg("^TestC03$", 4000, 120000, qshards=8), leg("^TestC03Sweep$", 1, 1, qshards=8, tshards=16), leg("^TestC03Multi$", 2000, 40000, qshards=8), fuzzleg("FuzzC03", 60)],
         "sweep_note": "the driver treats legs whose test name ends in Sweep$ or Cells$ as enumerations",
     },
     "C04": {
         "title": "Framing violations are rejected fail-stop and never reach the application",
         "level": "fault_enumeration",
-        "rule": "part alphabet: EXHAUSTIVE enumeration of the next-frame alphabet {idle, inside a fragmented message} x role x compression negotiated x 16 opcodes x FIN x RSV1 x RSV2 x RSV3 x MASK x length class {0,1,125,126,65536,top bit} (+21 close-body classes) = 29696 cells, each classified valid/violation/unspecified by an independent RFC classifier; violation => error at that frame, earlier message intact, nothing of the frame or the conformant suffix delivered or handled, 5 later reads return the same error, exactly one close frame 1002 written (optional for top-bit lengths); valid => accepted and decoded as the reference decoder says. part history: rapid-generated conformant prefix (C03 generator, optionally ending inside a message, read with abandonment) + one violating frame built by mutating a valid frame + conformant suffix; same oracle plus pongs owed for the prefix. Non-trivial = every violation/valid cell; histories with >=1 completed message or an open message.",
+        "rule": "part alphabet: EXHAUSTIVE enumeration of the next-frame alphabet {idle, inside a fragmented message} x role x compression negotiated x 16 opcodes x FIN x RSV1 x RSV2 x RSV3 x MASK x length class {0,1,125,126,65536,top bit} (+21 close-body classes) = 33792 cells (incl. control frames that use an extended length field for a short payload), each classified valid/violation/unspecified by an independent RFC classifier; violation => error at that frame, earlier message intact, nothing of the frame or the conformant suffix delivered or handled, 5 later reads return the same error, exactly one close frame 1002 written (optional for top-bit lengths); valid => accepted and decoded as the reference decoder says. part history: rapid-generated conformant prefix (C03 generator, optionally ending inside a message, read with abandonment) + one violating frame built by mutating a valid frame + conformant suffix; same oracle plus pongs owed for the prefix. Non-trivial = every violation/valid cell; histories with >=1 completed message or an open message.",
         "exhaustive_quick": True,
         "exhaustive_thorough": True,
         "assumptions": TRUST + ["the alphabet uses one representative length per class and 21 close-body classes", "unspecified cells (RSV1 on control/continuation with compression, 1-byte close body, codes 1012-1014) are only checked for no-panic and stickiness"],
